@@ -137,8 +137,13 @@ class Scenario:
     def mtext(self, Mf):
         if self.form == 'm':
             return 'm %d %s' % (self.nf, cells(Mf))
-        a, b = ab_split(self.rng, self.typ, Mf, Mf[0].shape[1])
+        a, b = self.split_ab(Mf, Mf[0].shape[1])
         return 'ab %d %s %s' % (self.nf, a, b)
+
+    def split_ab(self, Mf, cols):
+        """(a text, b text); `ab_fn` lets a scenario choose its own reference matrices"""
+        fn = getattr(self, 'ab_fn', None)
+        return fn(Mf, cols) if fn else ab_split(self.rng, self.typ, Mf, cols)
 
     def abbrev_sel(self, ports, mode):
         """row/column selections for an abbreviated measurement matrix of a standard on `ports` (1-based);
@@ -245,7 +250,7 @@ class Scenario:
         if self.form == 'm':
             body = 'm %d %s %s' % (len(fv), ' '.join(vlib.d2h(f) for f in fv), cells(Mf))
         else:
-            a, b = ab_split(self.rng, self.typ, Mf, self.cols)
+            a, b = self.split_ab(Mf, self.cols)
             body = 'ab %d %s %s %s' % (len(fv), ' '.join(vlib.d2h(f) for f in fv), a, b)
         return 'cal apply %d %d %s' % (self.c, ci, body)
 
